@@ -15,7 +15,7 @@ BUDGET = {"quick": {"cases": 10000, "soft_deadline": 200}, "thorough": {"cases":
 RULE = (
     "case = (network n<=6 [7 thorough], weighted to motif-avoidant cores; configuration; history of <=5 public operations "
     "of all kinds incl. attractor queries on unexpanded/skipped nodes, skipping, pickle/reclaim, control); oracle = loop "
-    "back-edges executed inside /repo/biobalm during one call <= B(n,N)=2e7*max(1,4^(n-6))*(1+N/50); non-trivial = the history "
+    "back-edges executed inside /repo/biobalm during one call <= B(n,N)=2e7*max(1,4^(n-6))*(1+N/50) + 40*minimum_simulation_budget*(n+1)^2; non-trivial = the history "
     "executed >=2 back-edges inside symbolic_attractor_test, run_simulation_minification or asp_greedy_retained_set_optimization"
 )
 ASSUMPTIONS = [
@@ -40,7 +40,7 @@ CONFIGS = st.one_of(
         optional={
             "retained_set_optimization_threshold": st.sampled_from((0, 1, 2, 3, 5, 10)),
             "attractor_candidates_limit": st.sampled_from((1, 2, 3, 5, 10)),
-            "minimum_simulation_budget": st.sampled_from((0, 1, 2, 10, 5000, 200000)),
+            "minimum_simulation_budget": st.sampled_from((0, 1, 2, 10, 5000, 20000)),
             "nfvs_size_threshold": st.sampled_from((0, 1, 2, 3)),
             "max_motifs_per_node": st.sampled_from((1, 2, 3, 5, 10)),
         },
@@ -66,15 +66,28 @@ def describe(case):
 WATCH = ("symbolic_attractor_test", "run_simulation_minification", "asp_greedy_retained_set_optimization")
 
 
+_TRIPS = [0]  # work-bound violations seen by this worker process
+
+
+def reset():
+    _TRIPS[0] = 0
+
+
 def run_case(case) -> Result:
     res = Result()
+    if _TRIPS[0] >= 6:
+        # every trip costs seconds (the bound is generous); once a worker has collected several violations the
+        # rest of its budget is skipped (and counted) so that the run ends in bounded time
+        res.excluded = "skipped_after_6_workbound_violations_in_this_worker"
+        return res
     net = net_of(case)
     n = net.n
     MONITOR.profile = True
     MONITOR.per_code = {}
     try:
         try:
-            h = ops.History(net, case["config"], limit=work_bound(n, 1))
+            budget = case["config"].get("minimum_simulation_budget", 1000)
+            h = ops.History(net, case["config"], limit=work_bound(n, 1, budget))
         except Nonterminating as e:
             res.violate(f"workbound:construct@{e.where}")
             return res
@@ -83,13 +96,14 @@ def run_case(case) -> Result:
             return res
         mx = 0
         for k, s in enumerate(case["steps"]):
-            h.limit = work_bound(n, max(len(h.sd), 8))
+            h.limit = work_bound(n, max(len(h.sd), 8), budget)
             try:
                 out = h.apply(s)
                 if out.kind == "runtime_error":
                     res.count("runtime_errors")
             except Nonterminating as e:
                 res.violate(f"workbound:{s['op']}@{e.where}", step=k, op=ops.fmt_step(s), bound=h.limit)
+                _TRIPS[0] += 1
                 break
             except BBError as e:
                 # other exceptions are judged by the properties they belong to
@@ -97,6 +111,9 @@ def run_case(case) -> Result:
                 break
             mx = max(mx, MONITOR.count)
         res.count("max_backedges_bucket_1e%d" % len(str(max(mx, 1))))
+        if mx > 5_000_000:
+            res.count("calls_above_5e6_backedges")
+            res.label("heavy>5e6")
         pc = MONITOR.per_code
         res.nontrivial = any(pc.get(w, 0) >= 2 for w in WATCH)
         for w in WATCH:
